@@ -798,3 +798,98 @@ def none_test_rule(fi, rule="NONE-TEST"):
         elif n_tests:
             out.append(holds(rule, fi, role, "%d identity test(s) against None" % n_tests, fi.node, nontrivial=False))
     return out
+
+
+# ------------------------------------------------------------------ MUTABLE-DEFAULT: a default object that the function writes into is shared state
+_DEFAULT_MUTATORS = ("setdefault", "update", "append", "extend", "insert", "pop", "popitem", "remove", "clear", "add", "discard", "sort", "reverse", "__setitem__")
+
+
+def mutable_default_rule(fi, rule="STATE"):
+    """A default value is created once, at definition time.  A parameter whose default is a mutable display / constructor ({}, [], set(),
+    dict(), list()) and that the function writes into (subscript store, mutating method) keeps what one call wrote for every later call
+    that relies on the default: results depend on the call history.  Reading such a default is fine."""
+    from .core import named
+    a = fi.node.args
+    pos = a.posonlyargs + a.args
+    defaults = dict(zip([x.arg for x in pos][len(pos) - len(a.defaults):], a.defaults))
+    defaults.update({k.arg: d for k, d in zip(a.kwonlyargs, a.kw_defaults) if d is not None})
+    out = []
+    for p, d in defaults.items():
+        mutable = isinstance(d, (ast.Dict, ast.List, ast.Set)) or (isinstance(d, ast.Call) and dotted(d.func) in ("dict", "list", "set", "collections.defaultdict", "defaultdict"))
+        if not mutable:
+            continue
+        role = "the default object of `%s` is never written into (a default is shared by all calls)" % p
+        rebound_before = {}
+        writes = []
+        for n in ast.walk(fi.node):
+            if isinstance(n, (ast.Subscript, ast.Attribute)) and isinstance(n.ctx, (ast.Store, ast.Del)):
+                b = n
+                while isinstance(b, (ast.Subscript, ast.Attribute)):
+                    b = b.value
+                if isinstance(b, ast.Name) and b.id == p:
+                    writes.append(n)
+            elif isinstance(n, ast.Call) and isinstance(n.func, ast.Attribute) and isinstance(n.func.value, ast.Name) and n.func.value.id == p \
+                    and n.func.attr in _DEFAULT_MUTATORS:
+                writes.append(n)
+        stores = [n for n in ast.walk(fi.node) if isinstance(n, ast.Name) and n.id == p and isinstance(n.ctx, ast.Store)]
+        writes = [w for w in writes if not any(s_.lineno < w.lineno for s_ in stores)]      # after a rebinding it is the function's own object
+        if writes:
+            out.append(named(rule, fi, role, "`%s` writes into the parameter whose default is the shared object `%s`: what one call stores is seen by "
+                             "every later call that uses the default" % (unparse(writes[0])[:50], unparse(d)[:30]), writes[0]))
+        else:
+            out.append(holds(rule, fi, role, "default `%s` is only read" % unparse(d)[:40], fi.node, nontrivial=False))
+    return out
+
+
+# ------------------------------------------------------------------ SET-ORDER: an unordered collection consumed where order matters
+def set_order_rule(fi, rule="SET-ORDER"):
+    """The iteration order of a set follows hash values and insertion history ({7, 8} iterates 8, 7; strings differ between processes).
+    A `for` over `set(..)` / a set display / a set comprehension whose body builds an ordered result (append / extend / insert / yield /
+    a positional store), a list / tuple built directly from a set, or `''.join(set(..))` makes the ORDER of the result depend on it.
+    `sorted(set(..))`, membership tests, len / min / max / any / all are not affected and a loop whose body is order-insensitive is
+    not judged.  Only emitted when such a construct exists (no instance otherwise)."""
+    from .core import named
+    role = "no ordered result is built by iterating an unordered set"
+    pm = parent_map(fi.node)
+
+    def is_set_expr(e):
+        if isinstance(e, (ast.Set, ast.SetComp)):
+            return True
+        if isinstance(e, ast.Call) and dotted(e.func) in ("set", "frozenset"):
+            return True
+        return False
+    out = []
+    for n in ast.walk(fi.node):
+        hit = None
+        if isinstance(n, ast.For) and is_set_expr(n.iter):
+            ordered = False
+            for st in n.body:
+                for x in ast.walk(st):
+                    if isinstance(x, ast.Call) and isinstance(x.func, ast.Attribute) and x.func.attr in ("append", "extend", "insert", "write", "appendleft"):
+                        ordered = True
+                    if isinstance(x, (ast.Yield, ast.YieldFrom)):
+                        ordered = True
+                    if isinstance(x, ast.AugAssign) and isinstance(x.op, ast.Add) and isinstance(x.value, (ast.List, ast.Tuple, ast.Constant)) and \
+                            not isinstance(getattr(x.value, "value", None), (int, float)):
+                        ordered = True
+            if ordered:
+                hit = (n, "`for %s in %s:` appends to an ordered result" % (unparse(n.target)[:20], unparse(n.iter)[:40]))
+        elif isinstance(n, (ast.ListComp, ast.GeneratorExp)) and n.generators and is_set_expr(n.generators[0].iter):
+            par = pm.get(n)
+            if isinstance(n, ast.ListComp) or (isinstance(par, ast.Call) and dotted(par.func) in ("list", "tuple", "torch.stack", "torch.cat", "numpy.array", "numpy.stack")):
+                if not (isinstance(par, ast.Call) and dotted(par.func) in ("sorted", "set", "frozenset", "sum", "min", "max", "any", "all", "len")):
+                    hit = (n, "`%s` lists the elements of a set in iteration order" % unparse(n)[:60])
+        elif isinstance(n, ast.Call) and dotted(n.func) in ("list", "tuple") and len(n.args) == 1 and is_set_expr(n.args[0]):
+            par = pm.get(n)
+            if not (isinstance(par, ast.Call) and dotted(par.func) in ("sorted", "len", "set")):
+                hit = (n, "`%s` lists the elements of a set in iteration order" % unparse(n)[:60])
+        elif isinstance(n, ast.Call) and isinstance(n.func, ast.Attribute) and n.func.attr == "join" and len(n.args) == 1 and is_set_expr(n.args[0]):
+            hit = (n, "`%s` concatenates the elements of a set in iteration order" % unparse(n)[:60])
+        if hit:
+            s = hit[0]
+            while not isinstance(s, ast.stmt):
+                s = pm[s]
+            out.append(named(rule, fi, role, "%s: the order of a set follows hash values / insertion history, not the order of the elements "
+                             "(`sorted(..)` or a list keeps it defined)" % hit[1], s))
+            break
+    return out
